@@ -64,7 +64,12 @@ D6_FIELDS = [("net.ipaddress", "ip"), ("net.ipnetwork", "netw"), ("path", "p"), 
              ("unix_file_mode", "mode")]
 # several fields of one type, ordered so that different fields satisfy different links of a chained comparison
 D7_FIELDS = [("varint", "size"), ("varint", "count"), ("varint", "k"), ("string", "first"), ("string", "last"), ("uint16", "port")]
-DESCS = {"D6": ("test/c07wide", D6_FIELDS), "D7": ("test/c07multi", D7_FIELDS), "D5": ("test/c07bytes", D5_FIELDS), "D1": ("test/c07", D1_FIELDS), "D2": ("test/c07b", D2_FIELDS), "D3": ("test/c07n", D3_FIELDS),
+# typed matchers WITH attribute paths over several fields of one type of which an earlier one is unset / lacks the
+# attribute and a later one matches (and the mirror order)
+D8_FIELDS = [("uri", "a"), ("uri", "b"), ("uri", "c"), ("path", "p1"), ("path", "p2"), ("datetime", "d1"), ("datetime", "d2"),
+             ("digest", "g1"), ("digest", "g2")]
+D9_FIELDS = [("varint", "v0"), ("varint", "v1"), ("varint", "v2"), ("string", "s0"), ("string", "s1")]     # (the Coq model knows these)
+DESCS = {"D8": ("test/c07attrs", D8_FIELDS), "D9": ("test/c07attrs2", D9_FIELDS), "D6": ("test/c07wide", D6_FIELDS), "D7": ("test/c07multi", D7_FIELDS), "D5": ("test/c07bytes", D5_FIELDS), "D1": ("test/c07", D1_FIELDS), "D2": ("test/c07b", D2_FIELDS), "D3": ("test/c07n", D3_FIELDS),
          "D4": ("test/c07ip", D4_FIELDS), "I1": ("test/inner", I1_FIELDS), "I2": ("test/inner2", I2_FIELDS),
          "I4": ("test/innerip", I4_FIELDS)}
 URIS_TOP = ["http://top.net/x/y.z", "https://example.com/a/b.txt", "ftp://files.org/pub/readme"]
@@ -153,6 +158,12 @@ FIXED_RECORDS = [
                 f=1.0, mode=0o644)),
     ("D6", dict(ip="::1", netw="192.168.0.0/16", p="/", cmd="cat /etc/passwd", fs=0, b=False, n=0, u="ftp://h/x", s="", port=0,
                 f=0.0, mode=0)),
+    ("D8", dict(a=None, b="http://host/dir/x.txt", c=None, p1=None, p2="/tmp/dir/f.txt", d1=None, d2="2020-05-06T07:08:09+00:00",
+                g1=None, g2=("d41d8cd98f00b204e9800998ecf8427e", None, None))),
+    ("D8", dict(a="http://host/dir/x.txt", b=None, c="ftp://other/y.bin", p1="/tmp/dir/f.txt", p2=None, d1="2020-05-06T07:08:09+00:00", d2=None,
+                g1=("d41d8cd98f00b204e9800998ecf8427e", None, None), g2=None)),
+    ("D9", dict(v0=None, v1=5, v2=None, s0=None, s1="x")),
+    ("D9", dict(v0=5, v1=None, v2=7, s0="x", s1=None)),
     ("D7", dict(size=50, count=5000, k=7, first="m", last="zz", port=80)),
     ("D7", dict(size=5000, count=50, k=0, first="zz", last="b", port=8080)),
 ]
@@ -184,6 +195,8 @@ def build_obj(which, vals):
         v = vals[nm]
         if ty == "bytes" and isinstance(v, str):       # from a replay file: repr() of the bytes
             v = ast.literal_eval(v)
+        if ty == "digest" and isinstance(v, list):
+            v = tuple(v)
         if ty == "record" and v is not None:
             v = build_obj(v[0], v[1])
         elif ty == "record[]" and v is not None:
@@ -1342,6 +1355,18 @@ KIND_TEMPLATES = [
     "((1,) + (2,)) == (1, 2)", "([1] + [2]) == [1, 2]", "(1, 2) < (1, 3)", "any(x == (1, 2) for x in [[1, 2]])", "(r.a == (1, 2, 3)) or (r.a == [1, 2, 3])",
     "(1, 2) != (1, 2)", "[(r.n, r.m)] == [(r.n, r.m)]", "[(r.n, r.m)] == [[r.n, r.m]]", "() == r.l", "(r.l == ()) or (r.l == [])",
 ]
+ATTR_TEMPLATES = [
+    "Type.uri.filename == 'x.txt'", "'x.t' in Type.uri.filename", "Type.uri.hostname == 'host'", "Type.uri.filename == 'y.bin'",
+    "Type.uri.filename != 'x.txt'", "Type.uri.scheme == 'http'", "'nope' in Type.uri.hostname", "Type.uri.filename == 'nope'",
+    "Type.path.name == 'f.txt'", "Type.path.suffix == '.txt'", "'f.t' in Type.path.name", "Type.path.name == 'nope'",
+    "Type.datetime.year == 2020", "Type.datetime.month > 4", "Type.datetime.year == 1999",
+    "Type.digest.md5 == 'd41d8cd98f00b204e9800998ecf8427e'", "Type.digest.md5 == 'x'",
+    "'x.txt' == Type.uri.filename", "Type.uri.filename == 'x.txt' and Type.path.name == 'f.txt'",
+]
+ATTR2_TEMPLATES = [
+    "Type.varint.real == 5", "Type.varint.denominator == 1", "Type.varint.real > 6", "Type.varint.imag == 0", "Type.varint.real == 6",
+    "5 == Type.varint.real", "Type.varint == 5", "Type.string == 'x'", "'x' in Type.string", "1 < Type.varint.real < 6",
+]
 MULTI_TEMPLATES = [
     "10 < Type.varint < 100", "1000 < Type.varint < 10000", "10 < Type.varint < 60 < Type.varint", "1 < Type.varint < 10 < Type.varint < 100",
     "'a' <= Type.string <= 'z'", "'n' < Type.string < 'zzz'", "'a' <= Type.string <= 'c'", "Type.varint > 1000 > Type.varint",
@@ -1654,6 +1679,10 @@ def differential(ctx, kf, budget_pairs, maxdepth, rnd, with_coq, exhaustive=Fals
             yield "multi", t
         for t in HELPER_NONE_TEMPLATES + KIND_TEMPLATES:
             yield "helpernone", t
+        for t in ATTR_TEMPLATES:
+            yield "attrs", t
+        for t in ATTR2_TEMPLATES:
+            yield "attrs2", t
         for t in WIDE_FIELDS_TEMPLATES:
             yield "widefields", t
         for _ in range(budget_pairs):
@@ -1702,6 +1731,10 @@ def differential(ctx, kf, budget_pairs, maxdepth, rnd, with_coq, exhaustive=Fals
             picks = d7_idx[:4]
         elif kind == "helpernone":
             picks = d1_idx[:4]
+        elif kind == "attrs":
+            picks = [i for i, r in enumerate(recs) if r["which"] == "D8"]
+        elif kind == "attrs2":
+            picks = [i for i, r in enumerate(recs) if r["which"] == "D9"]
         elif kind == "widefields":
             picks = d6_idx[:2]
         elif isinstance(kind, tuple):
